@@ -73,6 +73,10 @@ type Stream struct {
 	// RlimitAS, if non-zero, is set as the child's address-space limit
 	// (ignored in race builds).
 	RlimitAS uint64
+	// Arch386 runs the stream's children with the GOARCH=386 build of the
+	// driver (int and uintptr are 32 bits wide there): the statements do not
+	// depend on the platform, the code under test may.
+	Arch386 bool
 }
 
 // Violation is one refutation of the property, with everything needed to
